@@ -43,6 +43,9 @@ type Prog struct {
 	chaCG    *callgraph.Graph
 	// call edges by site (VTA)
 	siteCallees map[ssa.CallInstruction][]*ssa.Function
+	helperMemo  map[*ssa.Function]map[*ssa.Function]bool
+	staticSites map[*ssa.Function][]ssa.CallInstruction
+	valueUse    map[*ssa.Function]bool
 	// function index by anchor name, e.g. "buffer/hybridbuffer.(*bufferer).Accept"
 	byAnchor map[string][]*ssa.Function
 	universe []*ssa.Function // module functions with bodies, excluding test support, sorted
